@@ -451,7 +451,10 @@ func NewSecurityManager() *SecurityManager {
 
 // ClientHandshake performs a client-side security handshake on the given stream
 func (sm *SecurityManager) ClientHandshake(ctx context.Context, s *stream.Stream) error {
-	auth := NewAuthenticator(sm.config, s)
+	// Private shallow copy: NewAuthenticator stores this handshake's ephemeral
+	// ECDH public key in its config, and one manager serves concurrent handshakes.
+	config := *sm.config
+	auth := NewAuthenticator(&config, s)
 	_, err := auth.ClientHandshake(ctx)
 	if err != nil {
 		return err
@@ -463,7 +466,10 @@ func (sm *SecurityManager) ClientHandshake(ctx context.Context, s *stream.Stream
 
 // ServerHandshake performs a server-side security handshake on the given stream
 func (sm *SecurityManager) ServerHandshake(ctx context.Context, s *stream.Stream) error {
-	auth := NewAuthenticator(sm.config, s)
+	// Private shallow copy: NewAuthenticator stores this handshake's ephemeral
+	// ECDH public key in its config, and one manager serves concurrent handshakes.
+	config := *sm.config
+	auth := NewAuthenticator(&config, s)
 	_, err := auth.ServerHandshake(ctx)
 	if err != nil {
 		return err
